@@ -243,14 +243,23 @@ impl<'a> CompilerState<'a> {
         let mut line_number: usize = 0;
         let mut char_number = 0;
         for c in self.preprocessed_utf8.chars() {
+            if char_number == loc {
+                break;
+            }
             if c == '\n' {
                 line_number += 1;
             }
             char_number += 1;
-            if char_number == loc {
-                break;
-            }
         }
+        if self.mapped_lines.is_empty() {
+            return Error::Syntax {
+                filename: String::new(),
+                line: 0,
+                included_in: None,
+                msg: message.to_string(),
+            };
+        }
+        let line_number = line_number.min(self.mapped_lines.len() - 1);
         let included_in = self.mapped_lines[line_number]
             .2
             .as_ref()
@@ -267,14 +276,23 @@ impl<'a> CompilerState<'a> {
         let mut line_number: usize = 0;
         let mut char_number = 0;
         for c in self.preprocessed_utf8.chars() {
+            if char_number == loc {
+                break;
+            }
             if c == '\n' {
                 line_number += 1;
             }
             char_number += 1;
-            if char_number == loc {
-                break;
-            }
         }
+        if self.mapped_lines.is_empty() {
+            return Error::Compiler {
+                filename: String::new(),
+                line: 0,
+                included_in: None,
+                msg: message.to_string(),
+            };
+        }
+        let line_number = line_number.min(self.mapped_lines.len() - 1);
         let included_in = self.mapped_lines[line_number]
             .2
             .as_ref()
@@ -291,14 +309,19 @@ impl<'a> CompilerState<'a> {
         let mut line_number: usize = 0;
         let mut char_number = 0;
         for c in self.preprocessed_utf8.chars() {
+            if char_number == loc {
+                break;
+            }
             if c == '\n' {
                 line_number += 1;
             }
             char_number += 1;
-            if char_number == loc {
-                break;
-            }
         }
+        if self.mapped_lines.is_empty() {
+            println!("Warning: {}", msg);
+            return;
+        }
+        let line_number = line_number.min(self.mapped_lines.len() - 1);
         let included_in = self.mapped_lines[line_number]
             .2
             .as_ref()
@@ -2438,6 +2461,14 @@ pub fn compile<I: BufRead, O: Write>(
     let r = Cc2600Parser::parse(Rule::program, preprocessed_utf8);
     match r {
         Err(e) => {
+            if mapped_lines.is_empty() {
+                return Err(Error::Syntax {
+                    filename: args.input.clone(),
+                    included_in: None,
+                    line: 0,
+                    msg: e.variant.message().to_string(),
+                });
+            }
             let mut ex = e.clone();
             let filename;
             let line;
@@ -2455,6 +2486,7 @@ pub fn compile<I: BufRead, O: Write>(
                     }
                 }
                 LineColLocation::Span((l1, c1), (l2, c2)) => {
+                    let l2 = l2.min(mapped_lines.len());
                     if l1 - 1 < mapped_lines.len() {
                         filename = mapped_lines[l1 - 1].0.clone();
                         line = mapped_lines[l1 - 1].1;
